@@ -269,6 +269,52 @@ func storedChecks(f *failer, outer any, isObj bool) {
 	case at.Object:
 		check("Ego", d.Ego())
 	}
+	// the kind reported for the stored value, and tree-form writes THROUGH it: they must reach the derived value and leave it
+	// where it is (an intermediate of the right kind is reused, C11), so every retrieval still hands back the identical value
+	if try(func() {
+		if isObj {
+			do := outer.(at.Object)
+			if holderO.TypeOf("d") != at.TypeObject || holderL.TypeOf(1) != at.TypeObject || holderO.TypeOfTF(".d") != at.TypeObject || holderL.TypeOfTF("#1") != at.TypeObject {
+				f.fail("a stored derived object is not reported as TypeObject")
+			}
+			holderO.SetTF(".d.zz-c19", 5)
+			check("Object.Get after SetTF through the stored value", holderO.Get("d"))
+			if !do.KeyExists("zz-c19") {
+				f.fail("SetTF through a stored derived object did not reach it")
+			}
+			holderL.SetTF("#1.zz-c19", 6)
+			check("List.Get after SetTF through the stored value", holderL.Get(1))
+			if !do.KeyExists("zz-c19") || do.Get("zz-c19") != any(6) {
+				f.fail("SetTF through a derived object stored in a list did not reach it")
+			}
+			holderO.UnsetTF(".d.zz-c19")
+			if do.KeyExists("zz-c19") {
+				f.fail("UnsetTF through a stored derived object did not reach it")
+			}
+		} else {
+			dl := outer.(at.List)
+			n := dl.Count()
+			if holderO.TypeOf("d") != at.TypeList || holderL.TypeOf(1) != at.TypeList || holderO.TypeOfTF(".d") != at.TypeList || holderL.TypeOfTF("#1") != at.TypeList {
+				f.fail("a stored derived list is not reported as TypeList")
+			}
+			holderO.SetTF(fmt.Sprintf(".d#%d", n), 5)
+			check("Object.Get after SetTF through the stored value", holderO.Get("d"))
+			if dl.Count() != n+1 {
+				f.fail("SetTF through a stored derived list did not reach it")
+			}
+			holderL.SetTF(fmt.Sprintf("#1#%d", n), 6)
+			check("List.Get after SetTF through the stored value", holderL.Get(1))
+			if dl.Count() != n+1 || dl.Get(n) != any(6) {
+				f.fail("SetTF through a derived list stored in a list did not reach it")
+			}
+			holderO.UnsetTF(fmt.Sprintf(".d#%d", n))
+			if dl.Count() != n {
+				f.fail("UnsetTF through a stored derived list did not reach it")
+			}
+		}
+	}) {
+		f.fail("a tree-form access through a stored derived value panicked")
+	}
 }
 
 // ---------- C15 ----------
@@ -338,6 +384,17 @@ func asyncCase(r *R, kind, n, procs int, delayPattern int) *Case {
 			if !resultOK {
 				f.fail("MapAsync result %s differs from Map result %s", res.String(), want.String())
 			}
+			// like Map, MapAsync returns a NEW list: not the receiver, and changing it leaves the receiver alone
+			if res == at.List(l) {
+				resultOK = false
+				f.fail("MapAsync returned its receiver instead of a new list (n=%d)", n)
+			} else {
+				res.Add("sentinel")
+				if canon(l) != before {
+					resultOK = false
+					f.fail("adding to the result of MapAsync changed the receiver (n=%d)", n)
+				}
+			}
 		}
 		if canon(l) != before {
 			f.fail("the async call modified the list")
@@ -382,6 +439,16 @@ func asyncCase(r *R, kind, n, procs int, delayPattern int) *Case {
 			resultOK = res.Equals(want) && res.Count() == n
 			if !resultOK {
 				f.fail("MapAsync result differs from Map result")
+			}
+			if res == at.Object(o) {
+				resultOK = false
+				f.fail("MapAsync returned its receiver instead of a new object (n=%d)", n)
+			} else {
+				res.Set("sentinel", 1)
+				if canon(o) != before {
+					resultOK = false
+					f.fail("setting a field of the result of MapAsync changed the receiver (n=%d)", n)
+				}
 			}
 		}
 		if canon(o) != before {
@@ -476,6 +543,34 @@ func readersCase(r *R, goroutines int) *Case {
 	}
 	if canon(l) != before {
 		f.fail("read-only operations modified the shared container")
+	}
+	// deriving operations with goroutine-specific arguments on the shared receiver (which has a growth history, hence possibly
+	// spare capacity): every goroutine must get its own result, checked after the join
+	results := make([]at.List, goroutines)
+	subs := make([]at.List, goroutines)
+	for g := 0; g < goroutines; g++ {
+		wg.Add(1)
+		go func(g int) {
+			defer wg.Done()
+			defer func() { recover() }()
+			results[g] = l.Concat(at.NewList(g, -g))
+			subs[g] = l.SubList(0, l.Count()).Add(g)
+		}(g)
+	}
+	wg.Wait()
+	for g := 0; g < goroutines; g++ {
+		want := l.Clone().Add(g, -g)
+		if results[g] == nil || canon(results[g]) != canon(want) {
+			f.fail("concurrent Concat calls on one unmodified list interfered: goroutine %d did not get receiver ++ [%d,%d]", g, g, -g)
+			break
+		}
+		if subs[g] == nil || canon(subs[g]) != canon(l.Clone().Add(g)) {
+			f.fail("concurrent SubList results interfered (goroutine %d)", g)
+			break
+		}
+	}
+	if canon(l) != before {
+		f.fail("concurrent deriving operations modified the shared container")
 	}
 	return &Case{Coq: "", Desc: map[string]any{"readers": goroutines, "ops": len(ops)}, Pred: f.pred, PredMsg: f.msg, Nontrivial: true,
 		Key: fmt.Sprintf("readers/%d/%s", goroutines, before), Tags: []string{"concurrent-readers"}}
